@@ -11,6 +11,7 @@ Everything a rule may want to know is appended to the path's trace as an
 event (dict); obligations (bounds, overflow, null) are events with a verdict.
 """
 import os
+import re
 import sys
 from .lin import Lin, Facts, INF
 from .frontend import AnalysisBroken, node_pos
@@ -1296,7 +1297,31 @@ class Interp:
         return self.fresh(s, name, n['type'])
 
     def e_UnaryExprOrTypeTraitExpr(self, n, st):
+        # sizeof of an integer / pointer type, of a fixed-size array of those, or of an expression of such a type
+        # (the operand of sizeof is not evaluated); anything else (records: padding) is not modelled
+        if n.get('name') == 'sizeof':
+            t = n.get('argType') or ((n.get('inner') or [{}])[0].get('type'))
+            sz = self._sizeof(t) if t else None
+            if sz is not None:
+                return [(st, Lin.c(sz))]
         raise Unsupported('sizeof at line %s' % node_pos(n)[1])
+
+    def _sizeof(self, t):
+        q = t.get('desugaredQualType', t.get('qualType')) if isinstance(t, dict) else t
+        q = q.strip()
+        mm = re.match(r'^(.*?)\s*\[(\d+)\]$', q)
+        if mm:
+            el = self._sizeof(mm.group(1))
+            return None if el is None else el * int(mm.group(2))
+        if q.endswith('*'):
+            return 8
+        it = self.prog.int_type(q)
+        if it is not None:
+            qq = q.replace('const ', '').strip()
+            if qq in ('bool', '_Bool'):
+                return 1
+            return it[0] // 8
+        return None
 
     def e_ConditionalOperator(self, n, st):
         c, a, b = n['inner']
@@ -1336,7 +1361,14 @@ class Interp:
             for s, lv in self.eval_lv(sub, st):
                 for s2, old in self.load(lv, s, sub):
                     if not is_lin(old):
-                        raise Unsupported('++ on pointer at line %s' % node_pos(n)[1])
+                        # pointer stepping: the same element arithmetic as p + 1 / p - 1 (with its index obligation)
+                        try:
+                            newp = self.ptr_add(old, Lin.c(d), s2, n)
+                        except Unsupported:
+                            raise Unsupported('++ on pointer %r at line %s' % (old, node_pos(n)[1]))
+                        for s3 in self.store(lv, newp, s2, n):
+                            out.append((s3, old if post else newp))
+                        continue
                     new = self.arith('+', old, Lin.c(d), n, s2)
                     for s3 in self.store(lv, new, s2, n):
                         out.append((s3, old if post else new))
@@ -1822,6 +1854,10 @@ class Interp:
             return ('aptr', p[1], p[2], p[3].add(off))
         if t in ('top', 'wbuf'):
             return p
+        if t == 'obj':
+            # stepping away from a pointer to one abstract object: nothing says that the neighbour exists
+            s.ev('ob', n, ob='index', ok=None, array=p[1], index=off, cap=Lin.c(1))
+            return ('top',)
         raise Unsupported('pointer arithmetic on %r at line %s' % (p, node_pos(n)[1]))
 
     def check_index(self, s, n, arrname, idx):
